@@ -727,7 +727,73 @@ func resID(b *Backend, i int) ecs.ResID {
 	return ecs.ResourceID[ResD](b.W)
 }
 
-// opResource: Mode 0 add, 1 remove; E = resource index; check Has/Get against the model.
+// resKit gives uniform access to one typed resource through all three routes: the typed handle Resource[T] that the
+// backend keeps for its whole life, the generic functions, and the ID-based Resources API.
+type resKit struct {
+	add    func(b *Backend, v int64, route int)
+	remove func(b *Backend, route int)
+	get    func(b *Backend) (handleHas bool, viaHandle, viaGeneric, viaID int64) // -1 = absent
+}
+
+func mkResKit[T any](idx int, field func(b *Backend) *ecs.Resource[T], mk func(int64) *T, val func(*T) int64) resKit {
+	handle := func(b *Backend) *ecs.Resource[T] {
+		if !b.resInit[idx] {
+			*field(b) = ecs.NewResource[T](b.W)
+			b.resInit[idx] = true
+		}
+		return field(b)
+	}
+	return resKit{
+		add: func(b *Backend, v int64, route int) {
+			h := handle(b)
+			switch route % 3 {
+			case 0:
+				ecs.AddResource(b.W, mk(v))
+			case 1:
+				h.Add(mk(v))
+			default:
+				b.W.Resources().Add(ecs.ResourceID[T](b.W), mk(v))
+			}
+		},
+		remove: func(b *Backend, route int) {
+			h := handle(b)
+			if route%2 == 0 {
+				b.W.Resources().Remove(ecs.ResourceID[T](b.W))
+			} else {
+				h.Remove()
+			}
+		},
+		get: func(b *Backend) (bool, int64, int64, int64) {
+			h := handle(b)
+			vh, vg, vi := int64(-1), int64(-1), int64(-1)
+			// the kept handle is asked only every other time while the resource is absent (a handle that is not asked in
+			// between must still see the resource that is added next)
+			if h.Has() || b.resAsk[idx]%2 == 0 {
+				if p := h.Get(); p != nil {
+					vh = val(p)
+				}
+			}
+			b.resAsk[idx]++
+			if p := ecs.GetResource[T](b.W); p != nil {
+				vg = val(p)
+			}
+			if r := b.W.Resources().Get(ecs.ResourceID[T](b.W)); r != nil {
+				vi = val(r.(*T))
+			}
+			return h.Has(), vh, vg, vi
+		},
+	}
+}
+
+var resKits = []resKit{
+	mkResKit(0, func(b *Backend) *ecs.Resource[ResA] { return &b.resA }, func(v int64) *ResA { return &ResA{V: v} }, func(p *ResA) int64 { return p.V }),
+	mkResKit(1, func(b *Backend) *ecs.Resource[ResB] { return &b.resB }, func(v int64) *ResB { return &ResB{V: v} }, func(p *ResB) int64 { return p.V }),
+	mkResKit(2, func(b *Backend) *ecs.Resource[ResC] { return &b.resC }, func(v int64) *ResC { return &ResC{V: v} }, func(p *ResC) int64 { return p.V }),
+	mkResKit(3, func(b *Backend) *ecs.Resource[ResD] { return &b.resD }, func(v int64) *ResD { return &ResD{V: v} }, func(p *ResD) int64 { return p.V }),
+}
+
+// opResource: Mode 0 add, 1 remove; E = resource index. Adds and removals go through a route that changes from step to
+// step; afterwards all four resources are read through all routes, the kept handles included.
 func (it *Interp) opResource(op *Op) {
 	i := op.E
 	_, has := it.M.Resources[i]
@@ -742,52 +808,30 @@ func (it *Interp) opResource(op *Op) {
 	}
 	it.run(op, valid, func(b *Backend) {
 		if op.Mode == 1 {
-			b.W.Resources().Remove(resID(b, i))
+			resKits[i].remove(b, it.Step)
 			return
 		}
-		switch i {
-		case 0:
-			ecs.AddResource(b.W, &ResA{V: v})
-		case 1:
-			r := ecs.NewResource[ResB](b.W)
-			r.Add(&ResB{V: v})
-		case 2:
-			b.W.Resources().Add(resID(b, i), &ResC{V: v})
-		default:
-			ecs.AddResource(b.W, &ResD{V: v})
-		}
+		resKits[i].add(b, v, it.Step)
 	})
+	it.checkResources()
+}
+
+func (it *Interp) checkResources() {
 	for _, b := range it.B {
 		for k := 0; k < 4; k++ {
 			want, has := it.M.Resources[k]
+			if !has {
+				want = -1
+			}
 			if b.W.Resources().Has(resID(b, k)) != has {
 				fail("resources|has", "%s step %d: resource %d Has=%v, model %v", b.Name, it.Step, k, !has, has)
 			}
-			var got int64 = -1
-			switch k {
-			case 0:
-				if r := ecs.GetResource[ResA](b.W); r != nil {
-					got = r.V
-				}
-			case 1:
-				r := ecs.NewResource[ResB](b.W)
-				if r.Has() != has {
-					fail("resources|has", "%s step %d: Resource[ResB].Has wrong", b.Name, it.Step)
-				}
-				if p := r.Get(); p != nil {
-					got = p.V
-				}
-			case 2:
-				if r := b.W.Resources().Get(resID(b, k)); r != nil {
-					got = r.(*ResC).V
-				}
-			default:
-				if r := ecs.GetResource[ResD](b.W); r != nil {
-					got = r.V
-				}
+			hHas, vh, vg, vi := resKits[k].get(b)
+			if hHas != has {
+				fail("resources|has", "%s step %d: the kept Resource[T] handle of resource %d reports Has=%v, model %v", b.Name, it.Step, k, hHas, has)
 			}
-			if has && got != want || !has && got != -1 {
-				fail("resources|get", "%s step %d: resource %d holds %d, model %d (present %v)", b.Name, it.Step, k, got, want, has)
+			if vh != want || vg != want || vi != want {
+				fail("resources|get", "%s step %d: resource %d holds %d (kept handle) / %d (GetResource) / %d (Resources.Get), model %d (-1 = absent)", b.Name, it.Step, k, vh, vg, vi, want)
 			}
 		}
 	}
